@@ -8,6 +8,7 @@ import (
 	"go/types"
 	"regexp"
 	"sort"
+	"strconv"
 	"strings"
 
 	"golang.org/x/tools/go/ssa"
@@ -105,6 +106,12 @@ func (sc *symCtx) sym(v ssa.Value, depth int) string {
 						}
 					case *ssa.Function, *ssa.MakeClosure, *ssa.Const:
 						return "&" + sc.sym(q, depth+1)
+					default:
+						// a local of the function being rendered, captured by a closure nested in it
+						// (`got := *val.(*T); slices.ContainsFunc(vs, func(x T) bool { return eq(got, x) })`)
+						if al.Parent() == sc.fn {
+							return "&" + sc.sym(q, depth+1)
+						}
 					}
 				}
 			}
@@ -189,6 +196,20 @@ func (sc *symCtx) sym(v ssa.Value, depth int) string {
 		if ph, ok := x.X.(*ssa.Phi); ok && ph.Comment == "rangeindex" && x.Op == token.ADD {
 			return "i"
 		}
+		// len(s) == 0 on a string is s == "" (and len(s) != 0 / > 0 / >= 1 is s != "")
+		if c, ok := x.X.(*ssa.Call); ok && callOf(c).builtin == "len" {
+			if b, isB := c.Call.Args[0].Type().Underlying().(*types.Basic); isB && b.Info()&types.IsString != 0 {
+				if k, isK := constInt(x.Y); isK {
+					s := sc.sym(c.Call.Args[0], depth+1)
+					switch {
+					case lenIsZero(x.Op, k, true):
+						return "(" + s + ` == "")`
+					case lenIsZero(x.Op, k, false):
+						return "(" + s + ` != "")`
+					}
+				}
+			}
+		}
 		return "(" + sc.sym(x.X, depth+1) + " " + x.Op.String() + " " + sc.sym(x.Y, depth+1) + ")"
 	case *ssa.Phi:
 		if e, ok := sc.phis[x]; ok {
@@ -221,6 +242,9 @@ func (sc *symCtx) sym(v ssa.Value, depth int) string {
 		if s, ok := sc.runeAny(x); ok {
 			return s
 		}
+		if s, ok := sc.sliceAny(x, depth); ok {
+			return s
+		}
 		var args []string
 		for _, a := range x.Call.Args {
 			args = append(args, sc.sym(a, depth+1))
@@ -231,6 +255,10 @@ func (sc *symCtx) sym(v ssa.Value, depth int) string {
 		}
 		if ci.builtin != "" {
 			name = ci.builtin
+		}
+		// fmt.Sprint(x) with a single operand formats it with %v: the same string as fmt.Sprintf("%v", x)
+		if name == "fmt.Sprint" && len(args) == 1 && singleVarargElem(x.Call.Args[0]) != nil {
+			name, args = "fmt.Sprintf", []string{`"%v"`, args[0]}
 		}
 		if ci.dynamic {
 			name = "call " + sc.sym(x.Call.Value, depth+1)
@@ -263,6 +291,43 @@ func (sc *symCtx) runeAny(c *ssa.Call) (string, bool) {
 	}
 	return sc.runeAnyOf(c.Call.Args[0], c.Call.Args[1], 0)
 }
+
+// sliceAny: `slices.ContainsFunc(s, f)` with f a closure or module function whose body is a single
+// returned expression is the existential over the elements of s of that expression, the formula a
+// hand-written `for _, x := range s { if <expr> { return true } }` gets: ANY[i in [0, len(s))](<expr with x = s[i]>).
+func (sc *symCtx) sliceAny(c *ssa.Call, depth int) (string, bool) {
+	ci := callOf(c)
+	if ci.static == nil || originName(ci.static) != "slices.ContainsFunc" || len(c.Call.Args) != 2 {
+		return "", false
+	}
+	var fn *ssa.Function
+	switch y := cv(c.Call.Args[1]).(type) {
+	case *ssa.Function:
+		fn = y
+	case *ssa.MakeClosure:
+		fn, _ = y.Fn.(*ssa.Function)
+	}
+	if fn == nil || len(fn.Blocks) != 1 || len(fn.Params) != 1 || !inModule(funcPkgPath(fn)) {
+		return "", false
+	}
+	rt, ok := fn.Blocks[0].Instrs[len(fn.Blocks[0].Instrs)-1].(*ssa.Return)
+	if !ok || len(rt.Results) != 1 {
+		return "", false
+	}
+	seq := sc.sym(c.Call.Args[0], depth+1)
+	saved := sc.names
+	names := map[ssa.Value]string{}
+	for k, v := range saved {
+		names[k] = v
+	}
+	names[fn.Params[0]] = seq + "[i]"
+	sc.names = names
+	body := sc.sym(rt.Results[0], depth+1)
+	sc.names = saved
+	return "ANY[i in [0, len(" + seq + "))](" + body + ")", true
+}
+
+var sliceAnyRE = regexp.MustCompile(`^ANY\[(i in \[0, len\((.*)\)\))\]\((.*)\)$`)
 
 func (sc *symCtx) runeAnyOf(str, f ssa.Value, depth int) (string, bool) {
 	var fn *ssa.Function
@@ -540,6 +605,31 @@ func (sh predShape) dnf() (string, []string) {
 	s := strings.Join(conj, "  ∨  ")
 	if sh.domain != "" {
 		s = "[" + sh.domain + "] " + s
+	}
+	// a single existential over a slice written with slices.ContainsFunc is the formula of the loop; a guard
+	// `len(s) != 0` in front of it is absorbed (the existential over an empty slice is false)
+	if sh.domain == "" && len(conj) == 1 {
+		atoms := splitTop(conj[0], " ∧ ")
+		var any []string
+		var rest []string
+		for _, a := range atoms {
+			if m := sliceAnyRE.FindStringSubmatch(a); m != nil {
+				any = m
+			} else {
+				rest = append(rest, a)
+			}
+		}
+		if any != nil {
+			okRest := true
+			for _, a := range rest {
+				if a != "(len("+any[2]+") != 0)" && a != "(len("+any[2]+") > 0)" {
+					okRest = false
+				}
+			}
+			if okRest {
+				s = "[" + any[1] + "] ∃: " + any[3]
+			}
+		}
 	}
 	return s, notes
 }
@@ -1181,6 +1271,9 @@ func (P *Prog) canonicalPredicateEnvT(cl *ssa.Function, env map[ssa.Value]ssa.Va
 		return "[" + sh.domain + "] runes∈{" + set + "}", nil
 	}
 	s, _ := sh.dnf()
+	if r, ok := byteLoopAsRuneSet(s); ok {
+		return r, nil
+	}
 	if m := runesAnyRE.FindStringSubmatch(s); m != nil && sh.loop == nil {
 		// the whole predicate is "some rune of the string is in the set": the form of the rune loop
 		return "[" + m[1] + "] runes∈{" + m[2] + "}", nil
@@ -1192,6 +1285,98 @@ func (P *Prog) canonicalPredicateEnvT(cl *ssa.Function, env map[ssa.Value]ssa.Va
 	}
 	s = normaliseRegexGlobals(s)
 	return s, nil
+}
+
+// byteLoopAsRuneSet: an existential over the *bytes* of a string whose body only compares the byte with
+// constants accepts a set of byte values; when that set lies within ASCII (< 0x80) the loop is the existential
+// over the *runes* of the string for the same set, because in UTF-8 no byte of a multi-byte rune is below 0x80
+// and every ASCII rune is one byte. (A set reaching 0x80 or above is not converted: it would match bytes inside
+// multi-byte runes.)
+var byteLoopRE = regexp.MustCompile(`^\[i in \[0, len\((string\(.*\))\)\)\] ∃: (.*)$`)
+var byteCmpRE = regexp.MustCompile(`^\((.*)\[i\] (>=|<=|>|<|==|!=) (-?[0-9]+)\)$`)
+
+func byteLoopAsRuneSet(s string) (string, bool) {
+	m := byteLoopRE.FindStringSubmatch(s)
+	if m == nil {
+		return "", false
+	}
+	str := m[1]
+	type cmp struct {
+		op  string
+		k   int64
+		neg bool
+	}
+	var disj [][]cmp
+	for _, d := range splitTop(m[2], "  ∨  ") {
+		d = strings.TrimPrefix(d, "∃: ")
+		var conj []cmp
+		for _, a := range splitTop(d, " ∧ ") {
+			a = strings.TrimSpace(a)
+			neg := false
+			for strings.HasPrefix(a, "!") {
+				a, neg = a[1:], !neg
+			}
+			c := byteCmpRE.FindStringSubmatch(a)
+			if c == nil || c[1] != str {
+				return "", false
+			}
+			k, err := strconv.ParseInt(c[3], 10, 64)
+			if err != nil {
+				return "", false
+			}
+			conj = append(conj, cmp{c[2], k, neg})
+		}
+		disj = append(disj, conj)
+	}
+	holds := func(b int64) bool {
+		for _, conj := range disj {
+			all := true
+			for _, c := range conj {
+				var v bool
+				switch c.op {
+				case ">=":
+					v = b >= c.k
+				case "<=":
+					v = b <= c.k
+				case ">":
+					v = b > c.k
+				case "<":
+					v = b < c.k
+				case "==":
+					v = b == c.k
+				case "!=":
+					v = b != c.k
+				}
+				if v == c.neg {
+					all = false
+					break
+				}
+			}
+			if all {
+				return true
+			}
+		}
+		return false
+	}
+	var ivs []string
+	start := int64(-1)
+	for b := int64(0); b <= 256; b++ {
+		h := b < 256 && holds(b)
+		if h && b >= 128 {
+			return "", false
+		}
+		if h && start < 0 {
+			start = b
+		}
+		if !h && start >= 0 {
+			ivs = append(ivs, fmt.Sprintf("[%d,%d]", start, b-1))
+			start = -1
+		}
+	}
+	if len(ivs) == 0 {
+		return "", false
+	}
+	return "[runes of " + str + "] runes∈{" + strings.Join(ivs, ",") + "}", true
 }
 
 func normaliseRegexGlobals(s string) string {
